@@ -179,6 +179,61 @@ theorem equalFold_iff_unicode (s t : Bytes) :
       ∀ p ∈ (runes s).zip (runes t), ∃ n, iter Unicode.simpleFold n p.1 = p.2 :=
   equalFold_iff Unicode.fold1_model s t
 
+/-! ## Algebraic corollaries for ASCII operands (no hypothesis left) -/
+
+/-- ASCII case-insensitivity proper: the outcome of `ContainsFold` is invariant under any
+change of ASCII letter case in either operand (operands with equal `ToLower` images get the
+same answer). -/
+theorem containsFold_ascii_case_invariant (s s' sub sub' : Bytes)
+    (hs : ∀ b ∈ s, b < 128) (hs' : ∀ b ∈ s', b < 128)
+    (hsub : ∀ b ∈ sub, b < 128) (hsub' : ∀ b ∈ sub', b < 128)
+    (h1 : s.map lowerASCII = s'.map lowerASCII) (h2 : sub.map lowerASCII = sub'.map lowerASCII) :
+    containsFold Unicode.simpleFold s sub = containsFold Unicode.simpleFold s' sub' := by
+  obtain ⟨b, hb, hiff⟩ := containsFold_ascii_unicode s sub hs hsub
+  obtain ⟨b', hb', hiff'⟩ := containsFold_ascii_unicode s' sub' hs' hsub'
+  rw [hb, hb']
+  rw [h1, h2] at hiff
+  have : b = true ↔ b' = true := hiff.trans hiff'.symm
+  cases b <;> cases b' <;> simp_all
+
+/-- Every ASCII string contains itself and the empty string, in any letter case. -/
+theorem containsFold_ascii_refl (s s' : Bytes) (hs : ∀ b ∈ s, b < 128) (hs' : ∀ b ∈ s', b < 128)
+    (h : s.map lowerASCII = s'.map lowerASCII) :
+    containsFold Unicode.simpleFold s s' = .ok true ∧
+    containsFold Unicode.simpleFold s [] = .ok true := by
+  obtain ⟨b, hb, hiff⟩ := containsFold_ascii_unicode s s' hs hs'
+  obtain ⟨b0, hb0, hiff0⟩ := containsFold_ascii_unicode s [] hs (by simp)
+  refine ⟨?_, ?_⟩
+  · rw [hb, hiff.2 (by rw [h]; exact List.infix_refl _)]
+  · rw [hb0, hiff0.2 (by simp)]
+
+/-- `ContainsFold` is monotone in the haystack for ASCII operands: what is found in `s` is
+found in `pre ++ s ++ post`. -/
+theorem containsFold_ascii_mono (pre s post sub : Bytes)
+    (hpre : ∀ b ∈ pre, b < 128) (hs : ∀ b ∈ s, b < 128) (hpost : ∀ b ∈ post, b < 128)
+    (hsub : ∀ b ∈ sub, b < 128)
+    (h : containsFold Unicode.simpleFold s sub = .ok true) :
+    containsFold Unicode.simpleFold (pre ++ s ++ post) sub = .ok true := by
+  obtain ⟨b, hb, hiff⟩ := containsFold_ascii_unicode s sub hs hsub
+  have hall : ∀ x ∈ pre ++ s ++ post, x < 128 := by
+    intro x hx
+    simp only [List.mem_append] at hx
+    rcases hx with (hx | hx) | hx
+    · exact hpre x hx
+    · exact hs x hx
+    · exact hpost x hx
+  obtain ⟨b', hb', hiff'⟩ := containsFold_ascii_unicode (pre ++ s ++ post) sub hall hsub
+  rw [hb] at h
+  have hbt : b = true := by injection h
+  have hin := hiff.1 hbt
+  rw [hb', hiff'.2]
+  simp only [List.map_append]
+  exact List.IsInfix.trans hin ⟨pre.map lowerASCII, post.map lowerASCII, rfl⟩
+
+example : containsFold Unicode.simpleFold (ascii "DISK") (ascii "sk") = .ok true :=
+  containsFold_ascii_mono (ascii "DI") (ascii "SK") [] (ascii "sk") (by decide) (by decide) (by simp)
+    (by decide) (containsFold_ascii_refl (ascii "SK") (ascii "sk") (by decide) (by decide) (by decide)).1
+
 /-! ## SplitTrimmed -/
 
 /-- `inplace_filter_safe`: run the filter loop of `SplitTrimmed` for any number `i` of
